@@ -100,6 +100,8 @@ def attributed (arg : Option ι) (m : Msg ι κ) : Msg ι κ :=
       documented meaning is "ignore the signature" (outside the property's default settings);
     * detached signature while `want_authn_requests_signed` is meant off (`mustF`): the query-string
       signature is not looked at by design; only an additional enveloped signature counts;
+    * detached signature, signed requests meant required, a parameter missing or a `SigAlg` the library
+      does not implement: no key verifies anything, the request must be refused;
     * `after first withArg`: acceptance needs `KeyOrigin` for BOTH items, each under the issuer it
       names itself. -/
 def specKind (cfgOnlyMd ovcF mustF : CfgForm) (md : Metadata ι κ) (kind : Kind ι κ) (m : Msg ι κ)
@@ -109,7 +111,9 @@ def specKind (cfgOnlyMd ovcF mustF : CfgForm) (md : Metadata ι κ) (kind : Kind
     !accepted || (keyOriginB (policy cfgOnlyMd) md first &&
       keyOriginB (policy cfgOnlyMd) md (attributed (if withArg then first.issuer else none) m))
   | .enveloped => meaning normService ovcF || specAccept cfgOnlyMd md m accepted
-  | .detached env =>
-    meaning normService ovcF || (!meaning normService mustF && !env) || specAccept cfgOnlyMd md m accepted
+  | .detached env p =>
+    meaning normService ovcF || (!meaning normService mustF && !env) ||
+    (if meaning normService mustF && p != .ok then !accepted   -- verified under NO key: never counts as signed
+     else specAccept cfgOnlyMd md m accepted)
 
 end Keys
